@@ -267,28 +267,30 @@ def low_power_traces(conf, orders, chk):
     traces = []
     worst = 0
     try:
-        SimParams.set_params({'raman_params': {'flag': True, 'method': 'perturbative', 'order': 2,
-                                               'solver_spatial_resolution': 500, 'result_spatial_resolution': 10e3},
-                              'nli_params': {'method': 'gn_model_analytic'}})
-        for el in network_from_json({'elements': els, 'connections': []}, eq).nodes():
-            el.ref_pch_in_dbm = 0.0
-            fid = el.uid.split(' ')[0]
-            chk.case(f'lowpower|{el.uid}', nontrivial=True)
-            si = create_arbitrary_spectral_information(frequency=f, pch=1e-9, baud_rate=32e9, slot_width=50e9, tx_osnr=40,
-                                                       tx_power=1e-9, roll_off=0.15)
-            try:
-                with Recording() as rec:
-                    el(si)
-            except Exception as ex:                                      # noqa
-                chk.violation(f'lowpower|{type(el).__name__}|{features(conf["span"][fid])}|exception|{type(ex).__name__}',
-                              dict(fibre=el.uid, exception=traceback.format_exc()[-1200:]))
-                continue
-            ev = rec.events[-1]
-            loss = L.dbm(ev['pre']['pch']) - L.dbm(ev['post']['pch'])
-            worst = max(worst, max(abs(udb(x) - b) for x, b in zip(loss, budget[fid])))
-            traces.append({'name': f'lowpower {el.uid}',
-                           'ev': [{'k': 'LowPower', 'what': f'{type(el).__name__}|{features(conf["span"][fid])}',
-                                   'ch': [{'a': udb(x), 'b': b} for x, b in zip(loss, budget[fid])]}]})
+        for step in conf['lowPowerSteps']:                 # the (length, solver resolution) grid
+            SimParams.set_params({'raman_params': {'flag': True, 'method': 'perturbative', 'order': 2,
+                                                   'solver_spatial_resolution': step, 'result_spatial_resolution': 10e3},
+                                  'nli_params': {'method': 'gn_model_analytic'}})
+            for el in network_from_json(copy.deepcopy({'elements': els, 'connections': []}), eq).nodes():
+                el.ref_pch_in_dbm = 0.0
+                fid = el.uid.split(' ')[0]
+                chk.case(f'lowpower|{el.uid}|{step}', nontrivial=True)
+                si = create_arbitrary_spectral_information(frequency=f, pch=1e-9, baud_rate=32e9, slot_width=50e9, tx_osnr=40,
+                                                           tx_power=1e-9, roll_off=0.15)
+                try:
+                    with Recording() as rec:
+                        el(si)
+                except Exception as ex:                                      # noqa
+                    chk.violation(f'lowpower|{type(el).__name__}|{features(conf["span"][fid])}|exception|{type(ex).__name__}',
+                                  dict(fibre=el.uid, exception=traceback.format_exc()[-1200:]))
+                    continue
+                ev = rec.events[-1]
+                loss = L.dbm(ev['pre']['pch']) - L.dbm(ev['post']['pch'])
+                worst = max(worst, max(abs(udb(x) - b) for x, b in zip(loss, budget[fid])))
+                mult = 'multiple' if (conf['span'][fid]['lenKm'] * 1000) % step == 0 else 'not-multiple'
+                traces.append({'name': f'lowpower {el.uid} step {step} m',
+                               'ev': [{'k': 'LowPower', 'what': f'{type(el).__name__}|length-{mult}-of-solver-step|{features(conf["span"][fid])}',
+                                       'ch': [{'a': udb(x), 'b': b} for x, b in zip(loss, budget[fid])]}]})
     finally:
         SimParams.set_params({})
     chk.cov['lowpower_quick_worst_deviation_udb'] = worst
@@ -382,7 +384,28 @@ def multiband_library_with_pmd_pdl():
     return doc
 
 
+def declared_connectors_network():
+    """a library whose Span defaults for the connectors are NOT zero, and a line whose fibres declare their connectors in
+    every way: explicit 0, explicit non-zero, not declared (the auto-design then completes them with the default);
+    returns (equipment document, topology document, {fibre uid: (declared in, declared out, default in, default out)})"""
+    from gnpy.tools.json_io import load_json
+    from harness.gnpy_util import line_or_mesh_json
+    eq = load_json(EX / 'eqpt_config.json')
+    for sp in eq['Span']:
+        sp.update({'con_in': 0.4, 'con_out': 0.6, 'EOL': 0})
+    topo = line_or_mesh_json(['A', 'B', 'C', 'D'], [('A', 'B', 70), ('B', 'C', 60), ('C', 'D', 80)])
+    figures = {'fiber (A -> B)': (0, 0), 'fiber (B -> A)': (None, None), 'fiber (B -> C)': (0, 0.3), 'fiber (C -> B)': (0.2, 0),
+               'fiber (C -> D)': (None, 0), 'fiber (D -> C)': (0.7, None)}
+    declared = {}
+    for e in topo['elements']:
+        if e['type'] == 'Fiber':
+            e['params']['con_in'], e['params']['con_out'] = figures[e['uid']]
+            declared[e['uid']] = figures[e['uid']] + (0.4, 0.6)
+    return eq, topo, declared
+
+
 def shipped_traces(chk, rng):
+    eq_decl, topo_decl, declared = declared_connectors_network()
     # (name, topology file, equipment file or document, -, simulation parameters the USER selects, extras)
     jobs = [j + ({},) for j in L.SHIPPED] + [
         ('longLinkSplitByDesign', None, None, (), None, {}),
@@ -391,7 +414,9 @@ def shipped_traces(chk, rng):
         ('fiberFusedToRamanFiber', None, 'eqpt_config.json', (), None, {'topology_json': spliced_raman_topology(True)}),
         # C + L propagation through multiband amplifiers whose band amplifiers have different PMD / PDL
         ('multiband-pmd-pdl-per-band', 'multiband_example_network.json', multiband_library_with_pmd_pdl(), (), None,
-         {'spectrum': 'multiband_spectrum.json'})]
+         {'spectrum': 'multiband_spectrum.json'}),
+        # connector figures declared as 0 / non-zero / not declared, with non-zero Span defaults (EOL 0)
+        ('declaredConnectors', None, eq_decl, (), None, {'topology_json': topo_decl})]
     npaths = 5 if chk.tier == 'quick' else 30
     max_ch = 8 if chk.tier == 'quick' else 16
     traces = []
@@ -411,7 +436,8 @@ def shipped_traces(chk, rng):
                     if ev['depth'] != 0:
                         continue
                     if ev['cls'] in ('Fiber', 'RamanFiber'):
-                        out.append(L.fiber_event(ev, ron, max_ch=max_ch, contrib=contrib))
+                        out.append(L.fiber_event(ev, ron, max_ch=max_ch, contrib=contrib,
+                                                 declared=declared if name == 'declaredConnectors' else None))
                     elif ev['cls'] in ('Roadm', 'Edfa', 'Multiband_amplifier'):
                         out.append(L.acc_event(ev, max_ch=max_ch, contrib=contrib))
                     else:
